@@ -266,8 +266,33 @@ class Interp:
 
     def st_Assign(self, st, frame):
         v = self.eval(st.value, frame)
+        v = self.materialize_container(v, st.targets, frame)
         for tg in st.targets:
             self.assign(tg, v, frame)
+
+    def materialize_container(self, v: V, targets, frame) -> V:
+        """An empty dict / list literal stored into a field that holds a heap
+        container becomes a fresh heap container of the field's kind (so that
+        chained assignments `d = self._map = {}` alias one object)."""
+        empty = (isinstance(v, VDictLit) and not v.items) or \
+            (isinstance(v, VList) and not v.items)
+        if not empty:
+            return v
+        for tg in targets:
+            if not isinstance(tg, ast.Attribute):
+                continue
+            base = self.eval(tg.value, frame)
+            if not isinstance(base, VObj):
+                continue
+            ty = self.heap.schema.field_type(self.schema_klass(base.klass),
+                                             tg.attr)
+            if isinstance(ty, TObj) and ty.klass.startswith("Dict:") and \
+                    isinstance(v, VDictLit):
+                return self.bm.new_dict(ty.klass.split(":", 1)[1])
+            if isinstance(ty, TObj) and ty.klass.startswith("List:") and \
+                    isinstance(v, VList):
+                return self.bm.new_list(ty.klass.split(":", 1)[1], [])
+        return v
 
     def st_AnnAssign(self, st, frame):
         if st.value is None:
